@@ -517,4 +517,11 @@ def r6_stage_order(ctx):
             r.check(c.dominates(so[0][0], dd[0][0]), "sort-before-dedup", "sort before dedup", "dedup before sort")
 
 
-RULES = [r1_selection_atoms, r2_canonical_keys, r3_swaps, r3_deposits, r3_withdrawals, r5_only_selected, r6_stage_order]
+def shared(ctx):
+    """'each participant receives their pro-rata share rounded down': the share helper pro_rata / multiply_frac is exactly floor(x·mine/total) (C01.R6)"""
+    from rules.engine import core
+    from rules.props import c01
+    core.import_rules(ctx, [c01.r6_floor], "X01")
+
+
+RULES = [r1_selection_atoms, r2_canonical_keys, r3_swaps, r3_deposits, r3_withdrawals, r5_only_selected, r6_stage_order, shared]
